@@ -195,6 +195,8 @@ Definition ext_frow (Ap Sp Soff : list row) (states : list nat) (nv : nat) (vars
   let w0 := add (head_val ai)
                 (sumF (map snd (filter (fun p => (isU states (fst p) || negb (inhat (fst p)))
                                                 && same_var' nv vars i (fst p)) weak))) in
+  (* else-branch: a weak connection to a point of the pattern goes into that point's weight *)
+  let weak_hat := filter (fun p => negb (isU states (fst p) || negb (inhat (fst p)))) weak in
   (* strong F neighbours j: (S value, coefficient, row j of A) *)
   let fs := map (fun p =>
                    let j := fst p in
@@ -210,7 +212,8 @@ Definition ext_frow (Ap Sp Soff : list row) (states : list nat) (nv : nat) (vars
                         fs) in
   let weak_sum := add (add w0 lump) back in
   map (fun c =>
-         let init := if isC states c && has_col c si then val_at c si else zero in
+         let init := add (if isC states c && has_col c si then val_at c si else zero)
+                         (sumF (map snd (filter (fun p => fst p =? c) weak_hat))) in
          let extra := sumF (map (fun t => let coef := snd (fst t) in let negj := fst (snd (snd t)) in
                                           let aj := snd (snd (snd t)) in
                                           mul coef (sumF (map snd (filter (fun q => isC states (fst q) && (fst q =? c)
